@@ -210,6 +210,10 @@ class Machine:
         # "units" command further down the block must not reinterpret it.
         color = self._as_raw_color(self._reg.get_color())
         mat = self._reg.matrix
+        if mat is None:
+            # A routine that stages cells, called outside any matrix block.
+            logging.warning('"stage" used outside of a matrix block.')
+            return
         # Division and interpolating loops produce floats such as 2.0.
         rect = Rect(*(
             None if index is None else round(index) for index in (
